@@ -13,7 +13,19 @@
 (*   sizes  size() of both,                                                    *)
 (*   mod64  data() mod 64 of both - always 0 ("data() is 64-byte aligned after *)
 (*          every operation that can (re)allocate"),                           *)
-(*   ret / len_err for Allocate.                                               *)
+(*   ret / len_err for Allocate,                                               *)
+(*   life   (only for a lifetime-instrumented element type, Lifetime = TRUE)   *)
+(*          the exactly-once accounting of element objects: after every step   *)
+(*          the number of constructed-and-not-destroyed element objects equals *)
+(*          size() of both vectors together, no object was constructed on a    *)
+(*          slot that holds a live one, none was destroyed or read that is not *)
+(*          live, and inside a container call elements are only made by        *)
+(*          default / copy / move construction (never by a converting or       *)
+(*          initializer-list constructor).                                     *)
+(* Elements are copied by: push_back of an lvalue, of an rvalue and of an      *)
+(* element of the same vector, insert (front / middle / back), resize(n, x),   *)
+(* assign, reallocation (any growth, reserve, shrink_to_fit), copy             *)
+(* construction and copy assignment of a whole vector; swap exchanges storage. *)
 (* capacity(), and whether data() moved, are not constrained (the statement    *)
 (* does not mention them); the drivers report them as coverage only.           *)
 EXTENDS Integers, Sequences, FiniteSets, TLC, AllocGuard
@@ -25,7 +37,8 @@ CONSTANTS Vals,        \* element values written by the client (integers # Defau
           ReserveNs,   \* arguments of reserve
           AllocBelow,  \* offsets d of symbolic Allocate requests: -AllocBelow .. AllocAbove
           AllocAbove,  \* (a cfg file cannot contain a negative number)
-          ByteSized    \* TRUE iff sizeof(T) = 1 (then no request exceeds max_size())
+          ByteSized,   \* TRUE iff sizeof(T) = 1 (then no request exceeds max_size())
+          Lifetime     \* TRUE iff the element type reports its construction / destruction accounting
 
 VARIABLES v, last
 vars == <<v, last>>
@@ -33,7 +46,9 @@ vars == <<v, last>>
 AllocDs   == (0 - AllocBelow)..AllocAbove
 Other(i)  == 3 - i
 Rep(n, x) == [k \in 1..n |-> x]
+Life(w)   == [live |-> Len(w[1]) + Len(w[2]), ctor_on_live |-> 0, dtor_on_dead |-> 0, use_of_dead |-> 0, conv_ctor |-> 0]
 Proj(w)   == [items |-> w, sizes |-> <<Len(w[1]), Len(w[2])>>, mod64 |-> <<0, 0>>]
+               @@ (IF Lifetime THEN [life |-> Life(w)] ELSE <<>>)
 Set1(i, s) == [v EXCEPT ![i] = s]
 
 Init == v = <<<<>>, <<>>>> /\ last = [a |-> "Init", arg |-> <<>>, cls |-> "", exp |-> Proj(<<<<>>, <<>>>>)]
@@ -47,6 +62,10 @@ Step(a, arg, w, ret) == StepC(a, arg, w, ret, "")
 Void == [ret |-> "void"]
 
 PushBack(i, x) == Len(v[i]) < MaxLen /\ Step("PushBack", [i |-> i, x |-> x], Set1(i, Append(v[i], x)), Void)
+\* push_back(T&&): the allocator's construct(p, const T&) still copies
+PushBackRv(i, x) == Len(v[i]) < MaxLen /\ Step("PushBackRv", [i |-> i, x |-> x], Set1(i, Append(v[i], x)), Void)
+\* v.push_back(v[0]): the argument aliases an element that a reallocation moves
+PushBackOwn(i) == Len(v[i]) \in 1..(MaxLen - 1) /\ Step("PushBackOwn", [i |-> i], Set1(i, Append(v[i], v[i][1])), Void)
 PopBack(i)     == Len(v[i]) > 0 /\ Step("PopBack", [i |-> i], Set1(i, SubSeq(v[i], 1, Len(v[i]) - 1)), Void)
 
 \* resize(n): shrink to a prefix, or grow by value-initialised elements
@@ -67,6 +86,8 @@ ShrinkToFit(i) == Step("ShrinkToFit", [i |-> i], v, Void)
 Assign(i, n, x) == n <= MaxLen /\ Step("Assign", [i |-> i, n |-> n, x |-> x], Set1(i, Rep(n, x)), Void)
 \* v_i = v_other (copy assignment)
 AssignFrom(i)   == Step("AssignFrom", [i |-> i], Set1(i, v[Other(i)]), Void)
+\* { AlignedVector<T> tmp(v_other); v_i.swap(tmp); }  (copy construction of a whole vector)
+CopyCtor(i)     == Step("CopyCtor", [i |-> i], Set1(i, v[Other(i)]), Void)
 \* v1.swap(v2)
 Swap            == Step("Swap", <<>>, <<v[2], v[1]>>, Void)
 Clear(i)        == Step("Clear", [i |-> i], Set1(i, <<>>), Void)
@@ -75,6 +96,13 @@ Insert(i, pos, x) ==
   /\ Len(v[i]) < MaxLen /\ pos \in 0..Len(v[i])
   /\ Step("Insert", [i |-> i, pos |-> pos, x |-> x],
           Set1(i, SubSeq(v[i], 1, pos) \o <<x>> \o SubSeq(v[i], pos + 1, Len(v[i]))), Void)
+
+\* insert(begin() + size() / 2, x)
+InsertMid(i, x) ==
+  /\ Len(v[i]) < MaxLen
+  /\ LET pos == Len(v[i]) \div 2 IN
+       Step("InsertMid", [i |-> i, x |-> x],
+            Set1(i, SubSeq(v[i], 1, pos) \o <<x>> \o SubSeq(v[i], pos + 1, Len(v[i]))), Void)
 
 \* aligned_allocator<T>().allocate(n) with a symbolic n; a successful request is filled and deallocated again.
 \*   beyond max_size()           : must throw std::length_error                       (the clause of the property)
@@ -89,8 +117,8 @@ Allocate(rel, d) ==
            IF MustThrow(rel, d) THEN "n>max_size" ELSE IF rel = "abs" /\ d > 0 THEN "n=small" ELSE IF rel = "abs" THEN "n=0" ELSE "n<=max_size")
 
 Next ==
-  \/ \E i \in 1..2, x \in Vals : PushBack(i, x)
-  \/ \E i \in 1..2 : PopBack(i) \/ ShrinkToFit(i) \/ AssignFrom(i) \/ Clear(i)
+  \/ \E i \in 1..2, x \in Vals : PushBack(i, x) \/ PushBackRv(i, x) \/ InsertMid(i, x)
+  \/ \E i \in 1..2 : PopBack(i) \/ ShrinkToFit(i) \/ AssignFrom(i) \/ Clear(i) \/ CopyCtor(i) \/ PushBackOwn(i)
   \/ \E i \in 1..2, n \in ResizeNs : Resize(i, n)
   \/ \E i \in 1..2, n \in ResizeNs, x \in Vals : ResizeVal(i, n, x) \/ Assign(i, n, x)
   \/ \E i \in 1..2, n \in ReserveNs : Reserve(i, n)
@@ -109,7 +137,7 @@ Min(a, b) == IF a < b THEN a ELSE b
 Target    == IF last'.a \in {"Swap", "Allocate", "Init"} THEN 0 ELSE last'.arg.i
 \* operations that only append / truncate / move storage keep the common prefix of the vector they act on
 KeepsPrefix ==
-  [][last'.a \in {"PushBack", "PopBack", "Resize", "ResizeVal", "Reserve", "ShrinkToFit"} =>
+  [][last'.a \in {"PushBack", "PushBackRv", "PushBackOwn", "PopBack", "Resize", "ResizeVal", "Reserve", "ShrinkToFit"} =>
        \A k \in 1..Min(Len(v[Target]), Len(v'[Target])) : v'[Target][k] = v[Target][k]]_vars
 \* storage-only operations change nothing
 StorageOnly == [][last'.a \in {"Reserve", "ShrinkToFit", "Allocate"} => v' = v]_vars
@@ -124,6 +152,16 @@ InsertShifts ==
          /\ Len(v'[i]) = Len(v[i]) + 1
          /\ \A k \in 1..Len(v[i]) : v'[i][IF k <= p THEN k ELSE k + 1] = v[i][k]
          /\ v'[i][p + 1] = last'.arg.x]_vars
+\* whole-vector copies reproduce the source, which stays as it was
+CopiesWhole == [][last'.a \in {"AssignFrom", "CopyCtor"} => v'[Target] = v[Other(Target)] /\ v'[Other(Target)] = v[Other(Target)]]_vars
+\* every element of the result is an element value that existed before the step, an argument, or T()
+NoNewValues ==
+  [][\A i \in 1..2 : \A k \in 1..Len(v'[i]) :
+        \/ \E j \in 1..2 : \E m \in 1..Len(v[j]) : v'[i][k] = v[j][m]
+        \/ v'[i][k] = Default
+        \/ (last'.a \in {"PushBack", "PushBackRv", "ResizeVal", "Assign", "Insert", "InsertMid"} /\ v'[i][k] = last'.arg.x)]_vars
+\* the lifetime accounting the specification expects is balanced
+LifeBalanced == Lifetime => (last.exp.life.live = Len(v[1]) + Len(v[2]))
 \* the length_error clause: thrown exactly for requests beyond max_size()
 ThrowsIffBeyond == [][last'.a = "Allocate" => (last'.exp.len_err <=> MustThrow(last'.arg.rel, last'.arg.d))]_vars
 ===============================================================================
